@@ -121,6 +121,7 @@ template <class C> struct Exec {
     std::vector<TextBuf> texts;
     USlot us[N_USLOTS]; QSlot qs[N_QSLOTS];
     std::vector<OpOut> outs;
+    std::vector<int> op_tid;    // text buffer created by each parse/dissect op (-1 none)
     bool faults_enabled = true;
     bool loss_enabled = true;
     bool check_snapshots = true;
@@ -231,6 +232,7 @@ template <class C> struct Exec {
         }
         for (int i = 0; i < N_QSLOTS; i++) qs[i] = QSlot();
         outs.assign(plan.ops.size(), OpOut());
+        op_tid.assign(plan.ops.size(), -1);
     }
 
     MgrInst& mgr_of(int idx) { if (idx < 0 || idx >= (int)mgrs.size()) idx = 0; return mgrs[idx]; }
